@@ -181,6 +181,32 @@ func registerIntrinsics(e *Exec) {
 		return ret(st, BV{e.tc.Int(int64(binSize(t)))})
 	}
 
+	// --- draining readers: contract = repeated Read into a large buffer until io.EOF ---------------
+	// (the sequence of buffer sizes the real implementations use is covered by the per-encoder drain lemma)
+	in["(*bytes.Buffer).ReadFrom"] = func(e *Exec, st *State, fn *ssa.Function, args []Value) []Outcome {
+		bp := args[0].(Ptr)
+		wm := e.lookupMethod(types.NewPointer(fn.Signature.Recv().Type().(*types.Pointer).Elem()), "Write")
+		return e.drainReader(st, args[1].(IfaceV), 0, e.tc.Int(0), func(s2 *State, chunk SliceV) []Outcome {
+			return e.callFunction(s2, wm, []Value{bp, chunk}, nil, e.curDepth+1)
+		}, func(s2 *State, total *Term, err Value) []Outcome {
+			return ret(s2, BV{total}, err)
+		})
+	}
+	in["io.ReadAll"] = func(e *Exec, st *State, fn *ssa.Function, args []Value) []Outcome {
+		acc := e.alloc(st, ByteBuf{C: czero, Len: e.tc.Int(0)})
+		return e.drainReader(st, args[0].(IfaceV), 0, e.tc.Int(0), func(s2 *State, chunk SliceV) []Outcome {
+			cur := s2.heap[acc].(ByteBuf)
+			nl := e.tc.Add(cur.Len, chunk.Len)
+			s2.heap[acc] = ByteBuf{C: e.copyContent(cur.C, cur.Len, chunk.Len, e.containerContent(s2, chunk.Base), chunk.Off), Len: nl}
+			return ret(s2, BV{chunk.Len}, IfaceV{})
+		}, func(s2 *State, total *Term, err Value) []Outcome {
+			cur := s2.heap[acc].(ByteBuf)
+			// result slice owns a fresh object so later appends do not alias the accumulator
+			id := e.alloc(s2, ByteBuf{C: cur.C, Len: cur.Len})
+			return ret(s2, SliceV{Base: Ptr{Obj: id}, Off: e.tc.Int(0), Len: cur.Len, Cap: cur.Len}, err)
+		})
+	}
+
 	// --- sort --------------------------------------------------------------------
 	in["sort.Slice"] = sortSlice
 	in["sort.SliceStable"] = sortSlice
@@ -711,4 +737,52 @@ func sortSlice(e *Exec, st *State, fn *ssa.Function, args []Value) []Outcome {
 	}
 	rec(st, 1, 1)
 	return done
+}
+
+const drainBuf = 1 << 24
+
+// drainReader repeatedly calls r.Read with a 16 MiB buffer, hands each chunk to sink, until io.EOF (-> nil error)
+// or another error (returned). done receives the total count and the error.
+func (e *Exec) drainReader(st *State, r IfaceV, iter int, total *Term, sink func(*State, SliceV) []Outcome, done func(*State, *Term, Value) []Outcome) []Outcome {
+	tc := e.tc
+	if r.T == nil {
+		st.panicVal = e.panicString("nil reader")
+		return []Outcome{{st: st, panicked: true}}
+	}
+	if iter > e.unroll {
+		e.h.UnwindHits = append(e.h.UnwindHits, "reader drain loop exceeded the unwinding bound")
+		return nil
+	}
+	rm := e.lookupMethod(r.T, "Read")
+	n := tc.Int(drainBuf)
+	buf := SliceV{Base: Ptr{Obj: e.alloc(st, ByteBuf{C: czero, Len: n})}, Off: tc.Int(0), Len: n, Cap: n}
+	var outs []Outcome
+	eof := e.load(st, Ptr{Obj: e.globalObj(st, e.prog.ImportedPackage("io").Var("EOF"))})
+	for _, o := range e.callFunction(st, rm, []Value{r.V, buf}, nil, e.curDepth+1) {
+		if o.panicked {
+			outs = append(outs, o)
+			continue
+		}
+		cnt := o.rets[0].(BV).T
+		err := o.rets[1].(IfaceV)
+		chunk := SliceV{Base: buf.Base, Off: tc.Int(0), Len: cnt, Cap: n}
+		for _, o2 := range sink(o.st, chunk) {
+			if o2.panicked {
+				outs = append(outs, o2)
+				continue
+			}
+			t2 := tc.Add(total, cnt)
+			if err.T == nil {
+				outs = append(outs, e.drainReader(o2.st, r, iter+1, t2, sink, done)...)
+				continue
+			}
+			isEOF := e.valueEq(o2.st, err, eof)
+			if isEOF.IsTrue() {
+				outs = append(outs, done(o2.st, t2, IfaceV{})...)
+			} else {
+				outs = append(outs, done(o2.st, t2, err)...)
+			}
+		}
+	}
+	return outs
 }
